@@ -27,7 +27,8 @@ def S_split(name, t="int[]", chunks=None):
                  couts="int co", crules={"co": CI})
 
 
-def catalogue():
+def catalogue(big=False):
+    """big: also the shapes with more than a hundred jobs (used where fork naming matters)"""
     P = []
 
     # 1. chain of two stages
@@ -286,7 +287,10 @@ def catalogue():
     #      the inner collection handed down unchanged
     for nm, outer, inner, om, im in (("nest_arr_map", [1, 2], {"x": 10, "y": 20}, "array", "map"),
                                       ("nest_map_arr", {"p": 1, "q": 2}, [10, 20], "map", "array"),
-                                      ("nest_arr_arr", [1, 2], [10, 20, 30], "array", "array")):
+                                      ("nest_arr_arr", [1, 2], [10, 20, 30], "array", "array"),
+                                      ) + ((
+                                      # more than a hundred combined forks: three-digit, zero-padded fork names
+                                      ("nest_arr_arr_110", list(range(11)), list(range(100, 110)), "array", "array"),) if big else ()):
         ot = "int[]" if om == "array" else "map<int>"
         it = "int[]" if im == "array" else "map<int>"
         rt = ("int" + ("[]" if im == "array" else "")) if False else None
@@ -324,6 +328,35 @@ def catalogue():
                                    [call("G"),
                                     call("A", binds={"x": split(ref("G", "m"))}, mode="map")],
                                    {"o": ref("A", "y")})], "TOP", {}))
+
+    # 15b. a call mapped at run time over a member projected through a typed map of structs
+    #      (eight keys: their order must not depend on how the runtime holds the map)
+    P.append(program("map_projkeys", [struct("TH", "string name, int v")],
+                     [S_const("MAKE", "map<TH> things", {"things": {k: {"name": "n" + k, "v": i} for i, k in
+                                                               enumerate(["q", "b", "zz", "a", "m", "k2", "c", "Z"])}}), S_echo("USE")],
+                     [pipeline("TOP", "", "map<int> o",
+                               [call("MAKE"), call("USE", binds={"x": split(ref("MAKE", "things", "v"))}, mode="map")],
+                               {"o": ref("USE", "y")})], "TOP", {}))
+
+    # 15c. a member projected through a typed-map literal one of whose keys is spelled like the member
+    P.append(program("proj_map_keyfield", [struct("PT", "int a, int b")],
+                     [stage("USE", "map<int> vals, map<int> other", "string r", {"r": INST})],
+                     [pipeline("SUB", "map<PT> m", "string r, map<int> bs",
+                               [call("USE", binds={"vals": self_("m", "a"), "other": self_("m", "b")})],
+                               {"r": ref("USE", "r"), "bs": self_("m", "b")}),
+                      pipeline("TOP", "map<PT> m", "string r, map<int> bs, map<int> aas",
+                               [call("SUB", binds={"m": self_("m")})],
+                               {"r": ref("SUB", "r"), "bs": ref("SUB", "bs"), "aas": self_("m", "a")})],
+                     "TOP", {"m": {"a": {"a": 1, "b": 2}, "z": {"a": 3, "b": 4}, "b": {"a": 5, "b": 6}}}))
+    # 15d. the whole result of a stage bound to a struct parameter whose nested member is narrower
+    P.append(program("whole_narrow", [struct("WIDE", "int a, int b"), struct("NARROW", "int a"),
+                                      struct("TGT", "int n, NARROW s"), struct("TGT2", "NARROW s, NARROW[] ss")],
+                     [stage("MAKE", "", "int n, WIDE s", {"n": const(3), "s": const({"a": 1, "b": 2})}),
+                      stage("MAKE2", "", "WIDE s, WIDE[] ss", {"s": const({"a": 1, "b": 2}), "ss": const([{"a": 5, "b": 6}, {"a": 7, "b": 8}])}),
+                      stage("SINK", "TGT what, TGT2 what2", "string r", {"r": INST})],
+                     [pipeline("TOP", "", "string r, TGT t",
+                               [call("MAKE"), call("MAKE2"), call("SINK", binds={"what": ref("MAKE"), "what2": ref("MAKE2")})],
+                               {"r": ref("SINK", "r"), "t": ref("MAKE")})], "TOP", {}))
 
     # 16. projection of a struct field through a two-dimensional array of structs
     P.append(program("proj2d", [struct("PT", "int x, int y")],
